@@ -655,3 +655,368 @@ T('f_c12_ring_ctor_closure_own_locals', ['C12'],
   (CTX, _PRC, '            filled = {}\n' + _PRC),
   (CTX, '                context[arg] = kwargs.get(arg, self.defaults.get(arg))\n',
         '                context[arg] = kwargs.get(arg, self.defaults.get(arg))\n                filled[arg] = context[arg]\n'))
+
+# ---- round w: a definition of the mechanism moved (verbatim) into another module of the package and imported back ----------------
+# (the anchor follows the import to the definition; everything about it -- its parent map, its free names, its report
+#  location -- is read in the module it lives in now)
+UT = 'clastic/utils.py'
+_CV_DEF = ('def check_valid_wsgi(wsgi_callable):\n'
+           '    if not callable(wsgi_callable):\n'
+           "        raise TypeError('expected WSGI application (%r) to be callable'\n"
+           '                        % (wsgi_callable,))\n'
+           '    wc_args = get_arg_names(wsgi_callable)[:2]\n'
+           '    if (not len(wc_args) == 2\n'
+           "        or wc_args[0] != 'environ'\n"
+           "        or wc_args[1] != 'start_response'):\n"
+           "        raise TypeError('expected WSGI callable (%r)'\n"
+           "                        ' to accept two arguments, `environ` and'\n"
+           "                        ' `start_response`, respectively, not %r'\n"
+           '                        % (wsgi_callable, wc_args))\n'
+           '    return\n'
+           '\n'
+           '\n')
+_GM_DEF = ('def _get_all_middlewares(bound_routes, app_middlewares=()):\n'
+           '    # TODO: use merge_middlewares\n'
+           '    all_mw = []\n'
+           '\n'
+           "    # the application's own middlewares count even when no route is\n"
+           '    # bound yet (routes may be added later with Application.add)\n'
+           '    for mw in app_middlewares:\n'
+           '        if mw not in all_mw:\n'
+           '            all_mw.append(mw)\n'
+           '\n'
+           '    for broute in reversed(bound_routes):\n'
+           '        for mw in broute.middlewares:\n'
+           "            # use list and eq so mws don't have to be hashable\n"
+           '            if mw not in all_mw:\n'
+           '                all_mw.append(mw)\n'
+           '\n'
+           '    return all_mw\n'
+           '\n'
+           '\n')
+_SW_DEF = ('def _safe_wrap_wsgi(source_name, source, inner):\n'
+           "    wsgi_wrapper = getattr(source, 'wsgi_wrapper', None)\n"
+           '    if wsgi_wrapper is None:\n'
+           '        return inner  # no wsgi_wrapper, no problem\n'
+           '    elif not callable(wsgi_wrapper):\n'
+           "        raise TypeError('expected %s.wsgi_wrapper to be callable'\n"
+           "                        ' or None, not %r' % (source_name, wsgi_wrapper))\n"
+           '\n'
+           '    wrapped_wsgi = wsgi_wrapper(inner)\n'
+           '    try:\n'
+           '        check_valid_wsgi(wrapped_wsgi)\n'
+           '    except TypeError as te:\n'
+           "        raise TypeError('expected valid WSGI callable from %s'\n"
+           "                        ' (%r) WSGI wrapper (%r), instead'\n"
+           "                        ' got issue: %r'\n"
+           '                        % (source_name, source, wsgi_wrapper, te))\n'
+           '    return wrapped_wsgi\n'
+           '\n'
+           '\n')
+_RES_DEF = ('def fast_randint(start, stop):\n'
+            '    """Assumes you know what you\'re doing, unlike random.randint() which\n'
+            '    is pretty slow with all of its aggressive checking. See random.py\n'
+            '    or this post for more:\n'
+            '    https://eli.thegreenplace.net/2018/slow-and-fast-methods-for-generating-random-integers-in-python/\n'
+            '\n'
+            '    Specifically assumes:\n'
+            '      * start and stop are ints\n'
+            '      * start < stop\n'
+            '\n'
+            '    Ubuntu 16.04, CPy2.7.11+\n'
+            '    This func: 1000000 loops, best of 3: 0.288 usec per loop\n'
+            '    random.randint: 1000000 loops, best of 3: 0.785 usec per loop\n'
+            '    """\n'
+            '    return (start + int(random.random() * (stop + 1 - start)))\n'
+            '\n'
+            '\n'
+            'class Reservoir(object):\n'
+            '    def __init__(self, cap=True, data=None, container=None):\n'
+            '        if cap is True:\n'
+            '            self._cap = 2 ** 14  # 16k\n'
+            '        elif cap is False:\n'
+            "            self._cap = float('inf')\n"
+            '        else:\n'
+            '            self._cap = int(cap)\n'
+            '        if container is None:\n'
+            '            container = []\n'
+            '        self._data = container\n'
+            '        self._total_count = len(container)\n'
+            "        assert self._total_count < self._cap, 'initial count %r must be lower than cap %r' % (self._total_count, self._cap)\n"
+            '\n'
+            '        for val in (data or []):\n'
+            '            self.add(val)\n'
+            '        return\n'
+            '\n'
+            '    @property\n'
+            '    def total_count(self):\n'
+            '        return self._total_count\n'
+            '\n'
+            '    def add(self, val):\n'
+            '        self._total_count += 1\n'
+            '        if len(self._data) < self._cap:\n'
+            '            # not (yet, or after an enlarging resize, no longer) full\n'
+            '            self._data.append(val)\n'
+            '            return\n'
+            '\n'
+            '        idx = fast_randint(0, self._total_count)\n'
+            '        if idx < self._cap:\n'
+            '            self._data[idx] = val\n'
+            '        return\n'
+            '\n'
+            '    def __iter__(self):\n'
+            '        return iter(self._data)\n'
+            '\n'
+            '    def to_list(self):\n'
+            '        return list(self)\n'
+            '\n'
+            '    def resize(self, new_size):\n'
+            '        self._cap = new_size\n'
+            '        if new_size >= len(self._data):\n'
+            '            return\n'
+            '        self._data = self._data[:new_size]\n'
+            '\n'
+            '    def __repr__(self):\n'
+            '        cn = self.__class__.__name__\n'
+            "        return ('<%s cap=%r, data_count=%r, total_count=%r>'\n"
+            '                % (cn, self._cap, len(self._data), self._total_count))\n'
+            '\n'
+            '\n')
+_IMP_MW = 'from .middleware import check_middlewares\n'
+_DUMMY = 'class DummyMiddleware(Middleware):'
+_UT_ANCHOR = 'def int2hexguid(id_int):'
+_IMP_UT = 'from .utils import int2hexguid\n'
+
+
+def _moved_collect(gm_def):
+    return ((A, _GM_DEF, ''), (A, _IMP_MW, _IMP_MW + 'from .middleware.core import _get_all_middlewares\n'), (C, _DUMMY, gm_def + _DUMMY))
+
+
+def _moved_wsgi(cv_def, sw_def):
+    return ((A, _CV_DEF, ''), (A, _SW_DEF, ''), (A, _IMP_UT, 'from .utils import int2hexguid, check_valid_wsgi, _safe_wrap_wsgi\n'),
+            (UT, _UT_ANCHOR, 'from .sinter import get_arg_names\n\n\n' + cv_def + sw_def + _UT_ANCHOR))
+
+
+T('f_c13_collect_moved_into_middleware_core', ['C13', 'C12'], *_moved_collect(_GM_DEF))
+B('f_c13_collect_moved_inner_reversed', ['C13'], 'R13.b',
+  *_moved_collect(_GM_DEF.replace('        for mw in broute.middlewares:\n', '        for mw in reversed(broute.middlewares):\n')))
+B('f_c13_collect_moved_no_dedup', ['C13'], 'R13.b',
+  *_moved_collect(_GM_DEF.replace('            if mw not in all_mw:\n                all_mw.append(mw)\n', '            all_mw.append(mw)\n')))
+T('f_c13_wsgi_helpers_moved_into_utils', ['C13', 'C12'], *_moved_wsgi(_CV_DEF, _SW_DEF))
+B('f_c13_wsgi_helpers_moved_unvalidated_path', ['C13'], 'R13.b',
+  *_moved_wsgi(_CV_DEF, _SW_DEF.replace('    wrapped_wsgi = wsgi_wrapper(inner)\n',
+                                        "    wrapped_wsgi = wsgi_wrapper(inner)\n    if source_name != 'middleware':\n        return wrapped_wsgi\n")))
+B('f_c13_wsgi_helpers_moved_second_name_not_compared', ['C13'], 'R13.b',
+  *_moved_wsgi(_CV_DEF.replace("        or wc_args[0] != 'environ'\n        or wc_args[1] != 'start_response'):\n", "        or wc_args[0] != 'environ'):\n"), _SW_DEF))
+# R13.a: "nobody in clastic calls start_response / writes the environ" is about every module of the package, not a list of them
+B('f_c13_start_response_called_in_other_module', ['C13'], 'R13.a',
+  (FL, 'def _filter_site_files(paths):', "def _early_ok(environ, start_response):\n    start_response('200 OK', [])\n    return []\n\n\ndef _filter_site_files(paths):"))
+B('f_c13_environ_written_in_other_module', ['C13'], 'R13.a',
+  (FL, 'def _filter_site_files(paths):', "def _tag(request):\n    request.environ['clastic.flaw'] = True\n\n\ndef _filter_site_files(paths):"))
+
+# R12.e: the classes that aggregate across requests by design are identified by their definition, wherever it is written
+_IMP_CORE_MW = 'from .core import Middleware\n'
+_CTX_ANCHOR = 'class ContextProcessor(Middleware):'
+
+
+def _moved_reservoir(res_def):
+    return ((STATS, _RES_DEF, ''), (STATS, _IMP_CORE_MW, _IMP_CORE_MW + 'from .context import Reservoir, fast_randint\n'),
+            (CTX, _CTX_ANCHOR, 'import random\n\n\n' + res_def + _CTX_ANCHOR))
+
+
+T('f_c12_ring_reservoir_moved_into_other_module', ['C12'], *_moved_reservoir(_RES_DEF))
+# ... a namesake of a table class is not that class: one defined elsewhere and held by a middleware is judged like any long-lived object
+B('f_c12_ring_namesake_of_design_class', ['C12'], 'R12.e',
+  (URL, 'class ScriptRootMiddleware(Middleware):\n',
+        'class Reservoir(object):\n    def __init__(self):\n        self.seen = []\n\n    def add(self, val):\n        self.seen.append(val)\n\n\n'
+        'class ScriptRootMiddleware(Middleware):\n'),
+  (URL, "        self.provides = (provided_name,)\n", "        self.provides = (provided_name,)\n        self.roots = Reservoir()\n"),
+  (URL, _SR, '        self.roots.add(request.script_root)\n' + _SR))
+# ... and a class that is not in the table does not become "by design" by living next to one that is
+B('f_c12_ring_reservoir_moved_other_class_beside_it', ['C12'], 'R12.e',
+  *(_moved_reservoir(_RES_DEF + 'class LastSeen(object):\n    def __init__(self):\n        self.value = None\n\n    def note(self, value):\n        self.value = value\n\n\n') +
+    ((STATS, 'from .context import Reservoir, fast_randint\n', 'from .context import Reservoir, fast_randint, LastSeen\n'),
+     (STATS, "    def request(self, next, request, _route):\n", "    def request(self, next, request, _route):\n        self.last_seen.note(request.path)\n"),
+     (STATS, "    def reset(self):\n", "    def reset(self):\n        self.last_seen = LastSeen()\n"))))
+
+# R12.a, generated code: the accumulated lists re-ordered in place before the join (same bag of line templates)
+_REV_TAIL = ("        cur += 1\n"
+             "    tails.reverse()\n"
+             "    return ''.join(defs + tails)\n\n\n"
+             "def _unused_recursive_form(funcs, params, inner_name, params_sofar, level):\n")
+T('f_c12_chain_builder_loop_reversed_in_place', ['C12'],
+  (S, _BCS_OLD_HEAD, _CARRIED_HEAD + _CARRIED_OK + _REV_TAIL))
+B('f_c12_chain_builder_loop_reversed_in_place_heap_store_line', ['C12'], 'R12.a',
+  (S, _BCS_OLD_HEAD, _CARRIED_HEAD + "        tails.append('%sfuncs[%s].calls = 1\\n' % (_INDENT * (cur + 1), cur))\n" + _CARRIED_OK + _REV_TAIL))
+B('f_c12_chain_builder_loop_reversed_in_place_global_line', ['C12'], 'R12.a',
+  (S, _BCS_OLD_HEAD, _CARRIED_HEAD + "        defs.append('%sglobal last_level\\n%slast_level = %s\\n' % (_INDENT * (cur + 1), _INDENT * (cur + 1), cur))\n" + _CARRIED_OK + _REV_TAIL))
+
+# the framework core follows a piece of itself that was split off into a private module and is imported back: the per-request
+# class, its methods and the ownership of what its fields hold are judged like before the move
+VER = 'clastic/_version.py'
+_DS_DEF = ('class DispatchState(object):\n'
+           '    """The every request handled by an :class:`Application` creates a\n'
+           '    :class:`DispatchState`, which is used to track relevant state in\n'
+           '    the routing progress, including which routes were attempted and\n'
+           '    what exceptions were raised, if any.\n'
+           '\n'
+           '\n'
+           '    .. note::\n'
+           '\n'
+           '      Objects of this type are constructed internally and are not really\n'
+           '      part of the Clastic API, except that they are one of the built-in\n'
+           '      injectables.\n'
+           '    """\n'
+           '\n'
+           '    def __init__(self):\n'
+           '        self.exceptions = []\n'
+           '        self.allowed_methods = set()\n'
+           '        self.attempted_routes = []\n'
+           '\n'
+           '    def add_route(self, route):\n'
+           '        self.attempted_routes.append(route)\n'
+           '\n'
+           '    def add_exception(self, exception):\n'
+           '        self.exceptions.append(exception)\n'
+           '\n'
+           '    def update_methods(self, methods):\n'
+           '        if methods:\n'
+           '            self.allowed_methods.update(methods)\n'
+           '\n'
+           '    def __repr__(self):\n'
+           '        args = (self.__class__.__name__, self.exceptions, self.allowed_methods)\n'
+           "        return '<%s exceptions=%r allowed_methods=%r>' % args\n")
+_VER_ANCHOR = "version_info = (24, 0, 1, 'dev')\n"
+
+
+def _moved_dispatch_state(ds_def):
+    return ((A, _DS_DEF + '\n\n', ''), (A, _IMP_UT, _IMP_UT + 'from ._version import DispatchState\n'), (VER, _VER_ANCHOR, ds_def + '\n\n' + _VER_ANCHOR))
+
+
+T('f_c12_dispatch_state_moved_into_private_module', ['C12', 'C13'], *_moved_dispatch_state(_DS_DEF))
+B('f_c12_dispatch_state_moved_adopt_then_ior', ['C12'], 'R12.a',
+  *_moved_dispatch_state(_DS_DEF.replace(_UM, '        if not methods:\n            return\n        if not self.allowed_methods:\n            self.allowed_methods = methods\n'
+                                              '            return\n        self.allowed_methods |= methods\n')))
+B('f_c12_dispatch_state_moved_class_level_list', ['C12'], 'R12.a',
+  *_moved_dispatch_state(_DS_DEF.replace('    def __init__(self):\n        self.exceptions = []\n', '    exceptions = []\n\n    def __init__(self):\n')))
+
+# =====================================================================================================================
+# round f
+# ---- C12 / R12.a: an object taken out of the caller's */** arguments is the caller's --------------------------------
+_MNA_SUPER = '        super(MethodNotAllowed, self).__init__(*args, **kwargs)\n'
+_HE_POP = "        headers = kwargs.pop('headers', None)\n"
+B('f_c12_caller_mapping_setdefault_through_local', ['C12'], 'R12.a',
+  (E, _MNA_SUPER, "        headers = kwargs.get('headers')\n        if headers is not None:\n            headers.setdefault('Allow', 'GET')\n" + _MNA_SUPER))
+B('f_c12_caller_mapping_fresh_only_on_one_path', ['C12'], 'R12.a',
+  (E, _MNA_SUPER, "        headers = kwargs.get('headers')\n        if not isinstance(headers, dict):\n            headers = kwargs['headers'] = dict(headers or ())\n"
+                  "        headers.setdefault('Allow', 'GET')\n" + _MNA_SUPER))
+B('f_c12_caller_mapping_item_store_after_pop', ['C12'], 'R12.a',
+  (E, _HE_POP, _HE_POP + "        if headers is not None:\n            headers['X-Error'] = self.message\n"))
+B('f_c12_caller_mapping_updated_inside_kwargs', ['C12'], 'R12.a',
+  (E, _MNA_SUPER, "        if 'headers' in kwargs:\n            kwargs['headers'].update(Allow='GET')\n" + _MNA_SUPER))
+B('f_c12_caller_positional_object_appended', ['C12'], 'R12.a',
+  (E, _MNA_SUPER, "        if args and isinstance(args[0], list):\n            args[0].append('Allow')\n" + _MNA_SUPER))
+B('f_c12_caller_mapping_through_second_local', ['C12'], 'R12.a',
+  (E, _HE_POP, _HE_POP + "        extra = headers\n        if extra:\n            extra.pop('Content-Length', None)\n"))
+T('f_c12_caller_mapping_copied_then_setdefault', ['C12', 'C13'],
+  (E, _MNA_SUPER, "        headers = dict(kwargs.get('headers') or {})\n        headers.setdefault('Allow', 'GET')\n        kwargs['headers'] = headers\n" + _MNA_SUPER))
+T('f_c12_own_entry_of_kwargs_updated', ['C12', 'C13'],
+  (E, _MNA_SUPER, "        kwargs['headers'] = dict(kwargs.get('headers') or {})\n        kwargs['headers'].update(Allow='GET')\n" + _MNA_SUPER))
+T('f_c12_caller_mapping_rebound_before_update', ['C12', 'C13'],
+  (E, _HE_POP, _HE_POP + "        if headers is not None:\n            headers = dict(headers)\n            headers['X-Error'] = str(self.message)\n"))
+
+# ---- C12 / R12.f: what a request is handed is not one long-lived mutable object ------------------------------------------
+_MC = ("    if multi:\n        def multi_converter(value):\n            if not value and optional:\n                return []\n")
+B('f_c12_converter_hands_out_captured_list', ['C12'], 'R12.f',
+  (R, _MC, "    if multi:\n        empty = []\n\n        def multi_converter(value):\n            if not value and optional:\n                return empty\n"))
+B('f_c12_converter_hands_out_captured_list_through_alias', ['C12'], 'R12.f',
+  (R, _MC, "    if multi:\n        empty = list()\n\n        def multi_converter(value):\n            result = empty\n            if not value and optional:\n                return result\n"))
+B('f_c12_converter_hands_out_module_list', ['C12'], 'R12.f',
+  (R, 'def build_converter(', '_NO_SEGMENTS = []\n\n\ndef build_converter('),
+  (R, _MC, _MC.replace('return []', 'return _NO_SEGMENTS')))
+B('f_c12_converter_hands_out_default_object', ['C12'], 'R12.f',
+  (R, _MC, _MC.replace('def multi_converter(value):', 'def multi_converter(value, empty=[]):').replace('return []', 'return empty')))
+B('f_c12_converter_hands_out_captured_list_conditionally', ['C12'], 'R12.f',
+  (R, _MC, "    if multi:\n        empty = []\n\n        def multi_converter(value):\n            if not value:\n                return empty if optional else [converter('')]\n"))
+B('f_c12_ring_ctor_closure_hands_out_captured_dict', ['C12'], 'R12.f',
+  (CTX, '    def _create_render(self):\n', '    def _create_render(self):\n        blank = {}\n'),
+  (CTX, '            if not isinstance(context, Mapping):\n                return next()\n', '            if not isinstance(context, Mapping):\n                return blank\n'))
+B('f_c12_ring_hands_out_class_level_list', ['C12'], 'R12.f',
+  (URL, 'class ScriptRootMiddleware(Middleware):\n', 'class ScriptRootMiddleware(Middleware):\n    roots = []\n\n    def known_roots(self):\n        return self.roots\n\n'))
+T('f_c12_converter_hands_out_captured_tuple', ['C12'],
+  (R, _MC, "    if multi:\n        empty = ()\n\n        def multi_converter(value):\n            if not value and optional:\n                return list(empty)\n"))
+T('f_c12_converter_hands_out_captured_immutable', ['C12'],
+  (R, "    def single_converter(value):\n        if not value and optional:\n            return None\n",
+      "    missing = None\n\n    def single_converter(value):\n        if not value and optional:\n            return missing\n"))
+T('f_c12_converter_copies_captured_list', ['C12'],
+  (R, _MC, "    if multi:\n        empty = []\n\n        def multi_converter(value):\n            if not value and optional:\n                return list(empty)\n"))
+T('f_c12_ring_request_closure_hands_out_own_dict', ['C12'],
+  (URL, _URL_KW, _URL_KW.replace('        kwargs = {}\n', '        kwargs = {}\n\n        def collected():\n            return kwargs\n')))
+
+# ---- C13 / R13.f: stores on the request object before dispatch cannot raise out of the WSGI callable -------------------------
+B('f_c13_stamp_guard_narrowed', ['C13'], 'R13.f',
+  (A, _TAG, _TAG.replace('        except Exception:\n', '        except AttributeError:\n')))
+B('f_c13_stamp_guard_narrowed_to_tuple', ['C13'], 'R13.f',
+  (A, _TAG, _TAG.replace('        except Exception:\n', '        except (AttributeError, TypeError):\n')))
+B('f_c13_stamp_unguarded', ['C13'], 'R13.f',
+  (A, _TAG, '        request.request_id = next(_REQ_ID_ITER)\n        request.request_guid = int2hexguid(request.request_id)\n'))
+B('f_c13_stamp_handler_reraises', ['C13'], 'R13.f',
+  (A, _TAG, _TAG.replace('            pass\n', "            raise RuntimeError('request type %r does not take an id' % self.request_type)\n")))
+B('f_c13_stamp_narrow_handler_first_reraises', ['C13'], 'R13.f',
+  (A, _TAG, _TAG.replace('        except Exception:\n', '        except TypeError:\n            raise\n        except Exception:\n')))
+B('f_c13_stamp_second_store_after_swallowing_handler', ['C13'], 'R13.f',
+  (A, _TAG, _TAG.replace('        else:\n            request.request_guid', '        request.request_guid').replace(
+      '            request.request_guid = int2hexguid(request.request_id)\n', '        request.request_guid = int2hexguid(getattr(request, "request_id", 0))\n')))
+B('f_c13_stamp_helper_guard_narrowed', ['C13'], 'R13.f',
+  (A, _TAG, '        self.tag_request(request)\n'),
+  (A, _CALL, _CALL + '\n    def tag_request(self, req):\n        try:\n            req.request_id = next(_REQ_ID_ITER)\n'
+                     '        except AttributeError:\n            return\n        req.request_guid = int2hexguid(req.request_id)\n'))
+B('f_c13_stamp_setattr_unguarded', ['C13'], 'R13.f',
+  (A, _TAG, _TAG + "        setattr(request, 'received_by', self)\n"))
+T('f_c13_stamp_both_stores_in_one_guard', ['C13', 'C12'],
+  (A, _TAG, '        try:\n            request.request_id = next(_REQ_ID_ITER)\n            request.request_guid = int2hexguid(request.request_id)\n'
+            '        except Exception:\n            pass\n'))
+T('f_c13_stamp_bare_except', ['C13', 'C12'],
+  (A, _TAG, _TAG.replace('        except Exception:\n', '        except:\n')))
+T('f_c13_stamp_base_exception_named', ['C13', 'C12'],
+  (A, _TAG, _TAG.replace('        except Exception:\n', '        except BaseException as e:\n')))
+T('f_c13_stamp_helper_call_guarded_by_caller', ['C13'],
+  (A, _TAG, '        try:\n            self.tag_request(request)\n        except Exception:\n            pass\n'),
+  (A, _CALL, _CALL + '\n    def tag_request(self, req):\n        req.request_id = next(_REQ_ID_ITER)\n        req.request_guid = int2hexguid(req.request_id)\n'))
+
+# ---- C13 / R13.g: header values of unknown type reach werkzeug only through its normalising entry points -----------------------
+B('f_c13_headers_copied_as_list_of_items', ['C13'], 'R13.g',
+  (E, _HE_POP, _HE_POP + "        if headers is not None and hasattr(headers, 'items'):\n            headers = list(headers.items())\n"))
+B('f_c13_headers_copied_by_comprehension', ['C13'], 'R13.g',
+  (E, _HE_POP, _HE_POP + "        if isinstance(headers, dict):\n            headers = [(k, v) for k, v in headers.items()]\n"))
+B('f_c13_headers_sorted_pairs', ['C13'], 'R13.g',
+  (E, "                                            headers=headers,\n", "                                            headers=sorted((headers or {}).items()),\n"))
+B('f_c13_headers_list_through_second_local', ['C13'], 'R13.g',
+  (E, _HE_POP, _HE_POP + "        pairs = list(headers.items()) if headers else None\n        headers = pairs\n"))
+T('f_c13_headers_copied_as_mapping', ['C13', 'C12'],
+  (E, _HE_POP, _HE_POP + "        if headers is not None and hasattr(headers, 'items'):\n            headers = dict(headers.items())\n"))
+T('f_c13_headers_pairs_made_strings', ['C13', 'C12'],
+  (E, _HE_POP, _HE_POP + "        if isinstance(headers, dict):\n            headers = [(str(k), str(v)) for k, v in headers.items()]\n"))
+T('f_c13_headers_own_constant_pairs', ['C13', 'C12'],
+  (E, _HE_POP, _HE_POP + "        if headers is None:\n            headers = [('X-Clastic-Error', '%s' % self.code)]\n"))
+T('f_c13_stamp_handler_notes_and_goes_on', ['C13', 'C12'],
+  (A, _TAG, _TAG.replace('            pass\n', "            print('request type %r takes no id' % (self.request_type,))\n")))
+# ... the stamping inherited from a mixin of the tree is followed as well
+_APPCLS = 'class Application(object):\n'
+_MIXIN = ('class _Stamping(object):\n    def stamp(self, req):\n        try:\n            req.request_id = next(_REQ_ID_ITER)\n'
+          '        except %s:\n            return\n        req.request_guid = int2hexguid(req.request_id)\n\n\n')
+T('f_c13_stamp_in_mixin', ['C13'],
+  (A, _APPCLS, _MIXIN % 'Exception' + 'class Application(_Stamping):\n'), (A, _TAG, '        self.stamp(request)\n'))
+B('f_c13_stamp_in_mixin_guard_narrowed', ['C13'], 'R13.f',
+  (A, _APPCLS, _MIXIN % 'AttributeError' + 'class Application(_Stamping):\n'), (A, _TAG, '        self.stamp(request)\n'))
+# ... the headers travelling inside a mapping the constructor builds and passes as **
+_HE_KW = "                                            headers=headers,\n"
+_HE_CT = "                                            content_type=content_type)\n"
+_HE_CT_STAR = "                                            content_type=content_type,\n                                            **response_kwargs)\n"
+T('f_c13_headers_through_star_mapping', ['C13', 'C12'],
+  (E, _HE_POP, "        response_kwargs = {'headers': kwargs.pop('headers', None)}\n"), (E, _HE_KW, ''), (E, _HE_CT, _HE_CT_STAR))
+B('f_c13_headers_through_star_mapping_as_list', ['C13'], 'R13.g',
+  (E, _HE_POP, "        response_kwargs = {'headers': list((kwargs.pop('headers', None) or {}).items())}\n"), (E, _HE_KW, ''), (E, _HE_CT, _HE_CT_STAR))
+B('f_c13_headers_stored_into_star_mapping_as_list', ['C13'], 'R13.g',
+  (E, _HE_POP, _HE_POP + "        response_kwargs = {}\n        response_kwargs['headers'] = [(k, v) for k, v in (headers or {}).items()]\n"),
+  (E, _HE_KW, ''), (E, _HE_CT, _HE_CT_STAR))
